@@ -52,15 +52,98 @@ CLAIMS = {
              ref="§6 C19", technique="Lean 4 theorems on render model + decide-theorems over extracted tables + repeated-run determinism oracle"),
 }
 
-PENDING = {
- "C01": "check under construction (whole-program correspondence on generated programs; global evaluator theorems)",
- "C04": "check under construction", "C05": "check under construction", "C06": "check under construction",
- "C08": "check under construction", "C09": "check under construction", "C10": "check under construction",
- "C12": "check under construction", "C13": "check under construction", "C14": "check under construction",
- "C15": "check under construction", "C16": "check under construction", "C18": "check under construction",
- "C19": "check under construction", "C20": "check under construction",
-}
 
+CLAIMS.update({
+ "C02": dict(text="Lean theorem G4 (`no_crash`): from the initial state no evaluator function can reach any of the model's crash sites — "
+                  "dangling address, empty scope chain, out-of-range index, arithmetic trap — except `print` of a value that contains itself "
+                  "(the statement's own exclusion); proved by induction over all 23 mutually recursive evaluator functions from a heap "
+                  "well-formedness invariant (WF, list cells keep their length). The crash sites of the model are exactly the panic sites "
+                  "of the Rust code; the model is tied by run-level correspondence on the exhaustive alias-shape × operator product, the "
+                  "extreme-integer grid, multi-byte string/interpolation literals and generated programs; model-free oracle: exit status ∈ "
+                  "{0,103}, no panic.",
+             ref="§6 C02", technique="Lean 4 invariant proof (well-formedness ⇒ no crash) over the evaluator model + differential correspondence + crash oracle"),
+ "C03": dict(text="Lean theorems: the lexer always makes progress and its fuel is always enough; the parser's fuel is always enough "
+                  "(`parse_total`, potential-function argument over all 22 parser functions): the front end decides every input; every "
+                  "reported line lies in 1..1+#newlines. Tie: token- and tree-level correspondence, exhaustive over all strings of length "
+                  "≤3/≤4 over a 30-character alphabet plus truncations/mutations/Unicode; CLI oracle: one `<path>:<l>:<c>: msg` "
+                  "diagnostic, status 103, empty stdout, line bound, read error for invalid UTF-8.",
+             ref="§6 C03", technique="Lean 4 totality/progress theorems on lexer and parser models + exhaustive short-input tok/ast correspondence + CLI format oracle"),
+ "C04": dict(text="Lean theorems on scope lookup/assign/declare (innermost wins, nearest is updated, only the top scope is declared in, "
+                  "shadowing frame), fresh scope per block/branch/iteration/call, closures store the defining chain itself, `evalCall` "
+                  "factors through a `callValue` that does not take the caller's chain; alpha-equivariance proved for the scope primitives "
+                  "and the binder (`…_partial`; the lift through the evaluator is open). Tie + two model-free oracles: an independent Python "
+                  "lexical-scoping interpreter and renaming metamorphism, exhaustive over scope-operation programs to 6/7 tokens.",
+             ref="§6 C04", technique="Lean 4 frame theorems on scope primitives and call factoring + exhaustive scope-program correspondence + renaming metamorphism"),
+ "C05": dict(text="Lean frame theorems: alias sites keep the address, updates change exactly one cell, builders allocate fresh cells that "
+                  "share their elements, `x += ys` rebinds, scalars are not heap cells; G2 (heap only grows, cells keep their kind, function "
+                  "cells never change) for the whole evaluator. Tie + Python reference with object identity, breadth-first over distinct heap "
+                  "shapes of alias/copy/mutate/observe histories.",
+             ref="§6 C05", technique="Lean 4 frame/freshness theorems + heap-shape-exhaustive history correspondence + Python identity oracle"),
+ "C06": dict(text="Lean theorems: `arith` is exact on Int ∩ i64 or reports IntOverflow (iff), division/remainder law and signs, comparisons "
+                  "agree with order, literal value and 2^63 boundary, `_` separators ignored, range spec, op-assign = assign for any "
+                  "right-hand side that leaves the target unchanged (through the evaluator, using G1). Tie + Python big-integer oracle on the "
+                  "boundary grid × operators × plain/op-assign forms, random 64-bit pairs, literals and ranges.",
+             ref="§6 C06", technique="Lean 4 exactness theorems on the arithmetic model + boundary-grid correspondence + big-integer oracle"),
+ "C08": dict(text="Lean theorems: print/parse round trip `parse (print e) = e` for all trees over atoms, the 15 binary operators and `..` "
+                  "(minimal parentheses, arbitrary positions, with the driver's fuel), left-associativity, tighter-tier-first, `..` loosest, "
+                  "negative literal vs subtraction, parentheses override; `decide` theorems that the tier table extracted from the grammar "
+                  "is the documented one. Tie at tree level; oracle: the generator's own tree must equal the implementation's dump for "
+                  "minimal / full / redundant parenthesisations, exhaustive over operator sequences, CLI-confirmed with distinguishing values.",
+             ref="§6 C08", technique="Lean 4 parser/printer round-trip and grouping theorems + decide-theorems over the extracted tier table + tree-level correspondence"),
+ "C09": dict(text="Lean theorems: the continuation-token set extracted from the lexer is the documented one (`decide`), `suppress` is "
+                  "characterised pointwise and is invariant under inserting terminators after a terminator/continuation token or at the start, "
+                  "a break after an ineligible token does split, `;` and newline are the same token; the lexer-level whitespace/comment "
+                  "theorems (`skipWs_spec`, `lex_render`) are not proved. Tie at token level (positions erased) and run level; oracle: layout "
+                  "metamorphism on the implementation (same tokens, same output, diagnostics at the mapped position).",
+             ref="§6 C09", technique="Lean 4 theorems on terminator suppression + decide-theorems over extracted tables + layout-metamorphism correspondence"),
+ "C10": dict(text="Lean theorems: `==` on acyclic values equals equality of their tree unfoldings (so aliasing, construction and insertion "
+                  "order play no role), reflexive also on deep copies, never two different booleans for the two orders, transitive, `!=` is the "
+                  "negation, mismatches are errors naming both kinds, never `bad`; `===` is address equality on list/object/function, reflexive, "
+                  "symmetric, implies `==`; comparison returns the state unchanged. Tie + the laws judged on the implementation's own answers over "
+                  "all ordered pairs and sampled triples of a pool of shapes in fresh/alias/shared/insertion-order variants.",
+             ref="§6 C10", technique="Lean 4 theorems relating heap equality to tree equality + all-pairs correspondence + law oracle"),
+ "C12": dict(text="Lean theorems: key order is a strict total order, sorted association lists with insert/lookup are finite maps "
+                  "(lookup-insert, size, extensionality), hence insertion-order independence; literal evaluation = fold of inserts in source "
+                  "order with later-wins, shorthand and spread; `.k` and `[\"k\"]` read/assign/op-assign coincide; `for` visits ascending keys. "
+                  "Tie + Python dict oracle over key histories in all insertion orders.",
+             ref="§6 C12", technique="Lean 4 finite-map theorems on the object model + permutation-exhaustive history correspondence + dict oracle"),
+ "C13": dict(text="Lean theorems: list/object destructuring binds positions/names, collect is `drop n` in a fresh cell and lossless, spread is "
+                  "concatenation, `f(xs..)` = `f(xs[0],…)`, arity rule incl. rest parameter, same binding engine for `:=`, `=`, `for` and "
+                  "parameters, shape errors; nested patterns with computed keys only at depth 1 (`bind_nested` open). Tie + Python destructuring "
+                  "reference and in-language round-trip laws over patterns × sources × positions. Known finding K3 reported as KNOWN-FINDING.",
+             ref="§6 C13", technique="Lean 4 bind/spread theorems + pattern×source exhaustive correspondence + Python reference oracle"),
+ "C14": dict(text="Lean theorems: arguments evaluated once left to right before the callee, arity rule, parameters live in a fresh scope cell "
+                  "on the closure chain (assigning one changes only that cell; mutating a passed container is shared), provenance: property/index "
+                  "reads set the source object, variable/argument/list/return moves keep it, operators and literals drop it, `this` is bound iff "
+                  "the callee value has a source. Tie + generator-planted expected `this` over access-path histories.",
+             ref="§6 C14", technique="Lean 4 provenance and parameter-frame theorems + access-path history correspondence + planted-tag oracle"),
+ "C15": dict(text="Lean theorems are one-step facts of the string-literal state machine (escapes, hex, invalid escape/hex, lone `$`, bad slot "
+                  "start, each located at the character) and whole-literal `decide` examples; the general `str_roundtrip` / `slots_exact` / "
+                  "`interpolate_concat` theorems are not proved yet, so the universal part rests on the tie: token and run correspondence, "
+                  "exhaustive over strings ≤2/≤3 (+ all of length 4) over an alphabet with escapes, 2/3/4-byte characters, braces and `$`, all "
+                  "arrangements of 0..3 slots, malformed literals at every position; Python decode/concat oracle.",
+             ref="§6 C15", technique="Lean 4 step theorems on the literal lexer model + exhaustive short-literal correspondence + Python decode/concat oracle"),
+ "C16": dict(text="Lean theorems: `applyBinOp` succeeds only on the documented operand kinds (`binop_domain`), rejects every other pair with "
+                  "InvalidOpTypes naming operator and both kinds in order, results have the kind determined by the operator (no coercion), the two "
+                  "type-name tables extracted from the source agree and are the documented names, `->type()` total except null, every typed "
+                  "context rejects the other kinds. Tie + oracle: the full finite matrix operator × kind × kind (plain and op-assign) × contexts, "
+                  "run exhaustively in both tiers against an independently transcribed table.",
+             ref="§6 C16", technique="Lean 4 case-analysis theorems over operator×kind matrix + decide-theorems over extracted type-name tables + exhaustive matrix correspondence"),
+ "C18": dict(text="Lean theorems: the scanner's position after k characters is `posOf src k` (lines from 1, columns count characters, a "
+                  "newline is column 0 of the next line), every token start and every lexical-error position is `posOf` of the offending "
+                  "character, positions depend only on the preceding text (`pos_shift`), tab and multi-byte count one; `node_pos` (every "
+                  "stored AST position is a token start) is checked by the tie, not proved. Tie at token/tree level with positions; oracle: "
+                  "planted offending tokens under layout rewrites with a 5-line Python reference. Known findings K2, K4.",
+             ref="§6 C18", technique="Lean 4 position theorems on scanner/lexer models + positioned tok/ast correspondence + planted-token oracle"),
+ "C20": dict(text="Lean theorems: reading/assigning/op-assigning an undeclared name is `Undefined` at that name, declaring twice in one scope "
+                  "is `AlreadyInScope` citing the earlier position and leaves the state unchanged, inner-scope redeclaration is allowed, all "
+                  "entry points reach `declare` on the top scope, `_` is a no-op for every bind mode and is never readable given no scope holds "
+                  "it (`underscore_never_partial`: the invariant's lift through the evaluator is open), non-bindable targets are rejected. "
+                  "Tie + Python scope machine over event sequences and every non-bindable kind × binding position.",
+             ref="§6 C20", technique="Lean 4 theorems on declare/assign/read and `_` + exhaustive event-sequence correspondence + Python scope-machine oracle"),
+})
+
+PENDING = {}
 
 def main():
     hooks_commit = "58af5e8"
